@@ -152,7 +152,8 @@ def _pair(scn):
       stats["max_dev_C"] = max(stats.get("max_dev_C", 0.0), abs(dev_w))
       if abs(dev_w) > tol:
         c.fail(
-          f"C:{name}:dist_not_separation_along_normal:{zone}",
+          # |dist| <= 2e-4: the normal is the normalised difference of two witness points that are closer together than 200 ccd tolerances
+          f"C:{name}:dist_not_separation_along_normal:{zone}" + (":near_touch" if abs(float(gd["dist"])) <= 2e-4 else ""),
           f"{tag}: dist={float(gd['dist']):.6g} but the separation along its normal {np.round(n_w, 5).tolist()} is {sep_w:.6g} "
           f"(|diff|={abs(dev_w):.3g} > {tol:.3g}; the reference solver deviates by {dev_r:.3g} on this input)",
         )
